@@ -485,3 +485,10 @@ func (c *seqChooser) Int(label string, lo, hi int) int {
 	c.draws = append(c.draws, int64(v))
 	return v
 }
+
+// HashBytes is a 64-bit FNV-1a hash.
+func HashBytes(b []byte) uint64 {
+	h := fnv.New64a()
+	h.Write(b)
+	return h.Sum64()
+}
